@@ -637,13 +637,16 @@ fn mutants_inner(m: &Module, rng: &mut Rng, prof: Profile) -> Vec<(String, Modul
             for (tag, ok, err) in [
                 ("elided-in-err-arm", Ty::Prim(Prim::U8), Ty::Ref(Lt::Anon, false, Box::new(opq(&op)))),
                 ("elided-in-ok-arm", Ty::Ref(Lt::Anon, false, Box::new(opq(&op))), Ty::Prim(Prim::U8)),
+                ("elided-in-err-arm-unit-ok", Ty::Unit, Ty::Ref(Lt::Anon, false, Box::new(opq(&op)))),
+                ("elided-in-err-arm-unit-ok-write", Ty::Unit, Ty::Ref(Lt::Anon, false, Box::new(opq(&op)))),
+                ("elided-in-ok-arm-unit-err", Ty::Ref(Lt::Anon, false, Box::new(opq(&op))), Ty::Unit),
             ] {
                 let (ti, mi) = *rng.pick(&opaque_sites);
                 let mut mm = m.clone();
                 let owner = mm.types[ti].name.clone();
                 let me = &mut mm.types[ti].methods[mi];
                 me.self_param = Some(SelfParam { ty: owner, by_ref: true, mutable: false, lt: Lt::Anon });
-                me.params = vec![];
+                me.params = if tag.ends_with("-write") { vec![("write".into(), Ty::Write)] } else { vec![] };
                 me.ret = Some(Ty::Res(Box::new(ok), Box::new(err), Sd::Std));
                 out.push((tag.to_string(), mm));
             }
